@@ -24,31 +24,91 @@ def _names(node, ctxtype):
     return {n.id for n in ast.walk(node) if isinstance(n, ast.Name) and isinstance(n.ctx, ctxtype)}
 
 
-def loop_carried(st):
-    """Locals that carry a value from one iteration to the next (or out of the loop): assigned in
-    the body and possibly read before being (unconditionally) re-assigned.  Conservative, syntactic."""
-    assigned = set()
-    for n in ast.walk(st):
-        if isinstance(n, ast.Name) and isinstance(n.ctx, (ast.Store, ast.Del)):
-            assigned.add(n.id)
-    definitely = set()
-    if isinstance(st, ast.For):
-        definitely |= _names(st.target, ast.Store)
-    carried = set()
-    if isinstance(st, ast.While):
-        carried |= (_names(st.test, ast.Load) & assigned)
-    for s in st.body:
-        loads = _names(s, ast.Load)
-        if isinstance(s, ast.AugAssign) and isinstance(s.target, ast.Name):
-            loads.add(s.target.id)
-        carried |= {x for x in loads if x in assigned and x not in definitely}
+def _loads(node):
+    return {n.id for n in ast.walk(node) if isinstance(n, ast.Name) and isinstance(n.ctx, ast.Load)}
+
+
+def _stores(node):
+    return {n.id for n in ast.walk(node) if isinstance(n, ast.Name) and isinstance(n.ctx, (ast.Store, ast.Del))}
+
+
+def _rbw(stmts, defined):
+    """(names possibly read before being written, names definitely written afterwards or None if the
+    end of the block is unreachable) for one pass through `stmts`, given the set already written."""
+    reads = set()
+    defined = set(defined)
+    for s in stmts:
+        if isinstance(s, (ast.Return, ast.Raise)):
+            reads |= (_loads(s) - defined)
+            return reads, None
+        if isinstance(s, (ast.Break, ast.Continue)):
+            return reads, None
         if isinstance(s, ast.Assign):
+            reads |= (_loads(s.value) - defined)
             for t in s.targets:
                 if isinstance(t, ast.Name):
-                    definitely.add(t.id)
-                elif isinstance(t, (ast.Tuple, ast.List)):
-                    definitely |= {e.id for e in t.elts if isinstance(e, ast.Name)}
-    return carried
+                    defined.add(t.id)
+                elif isinstance(t, (ast.Tuple, ast.List)) and all(isinstance(e, ast.Name) for e in t.elts):
+                    defined |= {e.id for e in t.elts}
+                else:
+                    reads |= (_loads(t) - defined)
+        elif isinstance(s, ast.AugAssign):
+            reads |= (_loads(s.value) - defined)
+            if isinstance(s.target, ast.Name):
+                if s.target.id not in defined:
+                    reads.add(s.target.id)
+            else:
+                reads |= (_loads(s.target) - defined)
+        elif isinstance(s, ast.If):
+            reads |= (_loads(s.test) - defined)
+            r1, d1 = _rbw(s.body, defined)
+            r2, d2 = _rbw(s.orelse, defined)
+            reads |= r1 | r2
+            if d1 is None and d2 is None:
+                return reads, None
+            defined = d2 if d1 is None else (d1 if d2 is None else (d1 & d2))
+        elif isinstance(s, (ast.While, ast.For)):
+            if isinstance(s, ast.While):
+                reads |= (_loads(s.test) - defined)
+                inner = set(defined)
+            else:
+                reads |= (_loads(s.iter) - defined)
+                inner = set(defined) | _stores(s.target)
+            r1, _ = _rbw(s.body, inner)
+            # a nested loop may run zero times, and its later iterations read what earlier ones wrote
+            reads |= r1 | ((_loads(s) & _stores(s)) - defined)
+            r2, _ = _rbw(s.orelse, defined)
+            reads |= r2
+        elif isinstance(s, ast.Try):
+            r1, d1 = _rbw(s.body, defined)
+            reads |= r1
+            ds = [d1]
+            for h in s.handlers:
+                rh, dh = _rbw(h.body, defined)
+                reads |= rh
+                ds.append(dh)
+            ds = [d for d in ds if d is not None]
+            if ds:
+                nd = ds[0]
+                for d in ds[1:]:
+                    nd = nd & d
+                defined = nd
+            r3, _ = _rbw(s.finalbody, defined)
+            reads |= r3
+        else:
+            reads |= (_loads(s) - defined)
+    return reads, defined
+
+
+def loop_carried(st):
+    """Locals that carry a value from one iteration to the next: assigned somewhere in the loop and
+    possibly read, in a later iteration (or in the loop test), before being written again."""
+    assigned = _stores(st) - (_stores(st.target) if isinstance(st, ast.For) else set())
+    start = _stores(st.target) if isinstance(st, ast.For) else set()
+    reads, _ = _rbw(st.body, start)
+    if isinstance(st, ast.While):
+        reads |= _loads(st.test)
+    return reads & assigned
 
 
 def frame_check(I, st, frame, L, base, tags):
@@ -82,9 +142,16 @@ def clause_env(I, frame, extra=None):
 
 
 def oblige_clause(I, frame, fi, env, oid, kind, tags):
-    from .modular import call_spec
+    from .modular import call_spec, MissingState
     ctx = I.ctx
-    for extra, v in ctx.sub_explore(lambda: I.truth(call_spec(I, fi, env))):
+    try:
+        subs = ctx.sub_explore(lambda: I.truth(call_spec(I, fi, env)))
+    except MissingState as e:
+        # the loop contract talks about state the code does not have (any more): the invariant cannot hold
+        from .engine import Obligation
+        ctx.obligations.append(Obligation(oid, "frame", "failed", 0.0, "syntactic", str(e), None, ctx.path_index, tags))
+        raise PathEnd("frame")
+    for extra, v in subs:
         ctx.oblige(oid, kind, B.z_implies(B.z_and(extra), v), tags=tags)
 
 
